@@ -314,6 +314,77 @@ theorem C11_use_is_pure (is : List TpInstr) (st : TpState) (n : Nat) (hf : st.Fr
     simp only [TpState.run, List.foldl_cons] at this ⊢
     rw [this, hkeep a ha]
 
+/-! ## "waits for the first minute matched" -/
+
+/-- `wait_until` returns after exactly `i` ticks iff the `i`-th reading of the wall clock matches
+the pattern and none of the readings before it does — for ANY sequence of readings (a clock
+that advances minute by minute, one that is read several times a minute, one that is stepped by
+an hour between two ticks). -/
+theorem C11_wait_ends_at_first_match (p : Pat) (rs : List (Nat × Nat)) (i : Nat) :
+    waitUntil p rs = some i ↔
+      (∃ r, rs[i]? = some r ∧ p.matches r.1 r.2 = true) ∧
+      ∀ j, j < i → ∀ r, rs[j]? = some r → p.matches r.1 r.2 = false := by
+  induction rs generalizing i with
+  | nil => simp [waitUntil]
+  | cons r rs ih =>
+    obtain ⟨h, m⟩ := r
+    by_cases hm : p.matches h m = true
+    · simp only [waitUntil, hm, if_true]
+      constructor
+      · intro hi
+        have : i = 0 := by simpa using hi.symm
+        subst this
+        exact ⟨⟨(h, m), by simp, hm⟩, fun j hj => absurd hj (Nat.not_lt_zero j)⟩
+      · rintro ⟨_, hno⟩
+        cases i with
+        | zero => rfl
+        | succ k =>
+          have := hno 0 (Nat.succ_pos k) (h, m) (by simp)
+          simp [hm] at this
+    · have hm' : p.matches h m = false := by simpa using hm
+      simp only [waitUntil, hm', Bool.false_eq_true, if_false]
+      cases i with
+      | zero =>
+        constructor
+        · intro hi
+          cases hw : waitUntil p rs <;> simp [hw] at hi
+        · rintro ⟨⟨r, hr, hmr⟩, _⟩
+          simp at hr
+          subst hr
+          simp [hm'] at hmr
+      | succ k =>
+        have ihk := ih k
+        constructor
+        · intro hi
+          have hk : waitUntil p rs = some k := by
+            cases hw : waitUntil p rs with
+            | none => simp [hw] at hi
+            | some x => simp [hw] at hi; simp [hi]
+          obtain ⟨⟨r, hr, hmr⟩, hno⟩ := ihk.mp hk
+          refine ⟨⟨r, by simpa using hr, hmr⟩, ?_⟩
+          intro j hj r' hr'
+          cases j with
+          | zero => simp at hr'; subst hr'; exact hm'
+          | succ j' => exact hno j' (Nat.lt_of_succ_lt_succ hj) r' (by simpa using hr')
+        · rintro ⟨⟨r, hr, hmr⟩, hno⟩
+          have hk : waitUntil p rs = some k := by
+            refine ihk.mpr ⟨⟨r, by simpa using hr, hmr⟩, ?_⟩
+            intro j hj r' hr'
+            exact hno (j + 1) (Nat.succ_lt_succ hj) r' (by simpa using hr')
+          simp [hk]
+
+/-- with `time at P1 or P2 …` the wait ends at the first reading matched by AT LEAST ONE of the
+listed patterns (`C11_or_is_or` gives what the union matches) -/
+theorem C11_wait_or (p : Pat) (ps : List Pat) (rs : List (Nat × Nat)) (i : Nat) :
+    waitUntil (ps.foldl Pat.union p) rs = some i ↔
+      (∃ r, rs[i]? = some r ∧ (ps.foldl Pat.union p).matches r.1 r.2 = true) ∧
+      ∀ j, j < i → ∀ r, rs[j]? = some r → (ps.foldl Pat.union p).matches r.1 r.2 = false :=
+  C11_wait_ends_at_first_match _ rs i
+
+/-- a clock stepped from 1:30 to 2:30 between two ticks: `time at 2:30` ends at that very tick -/
+example : waitUntil ((fromString "2:30").getD ⟨[]⟩) [(1, 29), (1, 30), (2, 30), (2, 31)] = some 2 := by
+  decide +kernel
+
 /-! ## Non-vacuity: concrete instances meet the hypotheses -/
 
 example : fromString "1*:*5" = some (Pat.ofFields [.dig 1, .star] [.star, .dig 5]) := by
